@@ -884,6 +884,15 @@ Lemma special_inhabited :
      = Some [3; 4; 22; 22; 5; 1; 11; 12; 18; 15; 2; 17; 0; 19; 13].
 Proof. vm_compute. repeat split. Qed.
 
+(** var _ = lg(); var _ int = lg(); var _ = lg()   (marks 1 2 3).  Every blank on the left of a
+    declaration is an occurrence of the identifier [_]; yaegi's package scope has one symbol [_],
+    owned by the last such declaration, so the others depend on it: an [RX] occurrence. *)
+Definition w_blanks : pkg := mkpkg [v 1 [RX 3]; v 2 [RX 3]; v 3 []] [].
+
+Lemma refuted_blank_shared :
+  y_order w_blanks = Some [3; 1; 2] /\ g_order w_blanks = Some [1; 2; 3].
+Proof. vm_compute. split; reflexivity. Qed.
+
 (** a direct cycle is rejected by both *)
 Definition w_cycle : pkg := mkpkg [v 1 [RV 2]; v 2 [RV 1]; v 3 []] [].
 
